@@ -106,6 +106,15 @@ def lake_build(targets, timeout=3000):
     return rc == 0, out
 
 
+def leanchecker(mods):
+    """`lake env leanchecker <modules>`: replays the declarations of the compiled modules through the kernel"""
+    try:
+        p = subprocess.run(["lake", "env", "leanchecker"] + list(mods), cwd=str(LEAN), capture_output=True, text=True, timeout=1800)
+    except subprocess.TimeoutExpired:
+        raise Infra("leanchecker timed out")
+    return p.returncode == 0, (p.stdout + p.stderr)
+
+
 def failing_decls(build_out: str):
     """map lake error lines (file:line) to the nearest preceding theorem/def name"""
     res = []
